@@ -206,8 +206,9 @@ def run(tier):
     g1 = common.run_tlc_many("Ssa", c05.ssa_cfg("c06_sim_a", 2, 3, 2, 6), 6, n, 90, seed + 3, allow_violation=True)
     g2 = common.run_tlc_many("Ssa", c05.ssa_cfg("c06_sim_b", 3, 3, 3, 5), 6, n // 2, 90, seed + 4, allow_violation=True)
     g3 = common.run_tlc_many("Ssa", c05.ssa_cfg("c06_sim_c", 3, 6, 2, 5), 6, n // 2, 90, seed + 5, allow_violation=True)
+    # (TraceSsa / TraceRows take the first reported row for the initial condition: grids that start at the initial time)
     recs = [r for r in g1.records + g2.records + g3.records
-            if len({round(f(r["tp"][i + 1]) - f(r["tp"][i]), 12) for i in range(len(r["tp"]) - 1)}) == 1]
+            if len({round(f(r["tp"][i + 1]) - f(r["tp"][i]), 12) for i in range(len(r["tp"]) - 1)}) == 1 and f(r["tp"][0]) == 0.0]
     items = []
     for i, rec in enumerate(recs):
         for k in range(2 if tier == "quick" else 4):
